@@ -34,6 +34,10 @@ package producer
 //@     invariant k != nil && k.logger != nil && ec != nil && k.producer != nil
 //@     step [once] sends_Input == iter(sends_Input) + 1
 //@     step [unchanged] lastsent_Input != nil && val(lastsent_Input).Topic == topic && iskind(val(lastsent_Input).Value, bytes) && sameview(anybytes(val(lastsent_Input).Value), msg)
+//@   loop 2
+//@     invariant k != nil && k.logger != nil && ec != nil && k.producer != nil
+//@     invariant sends_Input == pre(sends_Input) + (sent ? 1 : 0)
+//@     invariant sent ==> lastsent_Input != nil && val(lastsent_Input).Topic == topic && iskind(val(lastsent_Input).Value, bytes) && sameview(anybytes(val(lastsent_Input).Value), msg)
 
 // ---- NSQ and NATS: one Publish(topic, msg) per message ---------------------------------------------------
 //@ func (*NSQ).inputMsg
